@@ -8,7 +8,7 @@ git -C /repo worktree add -q --detach $WT HEAD || exit 2
 (cd $WT && git apply /verif/seeded/$P-$K/patch.diff) || { echo "PATCH DOES NOT APPLY"; git -C /repo worktree remove --force $WT; exit 2; }
 OUT=/var/tmp/seedrun-$P-$K; rm -rf $OUT
 cd /verif
-VERIF_REPO=$WT VERIF_OUTDIR=$OUT bin/vcheck ${CHECK:-$P} --tier quick "$@" > $OUT.log 2>&1; RC=$?
+VERIF_REPO=$WT VERIF_OUTDIR=$OUT bin/vcheck ${CHECK:-$P} --tier ${TIER:-quick} "$@" > $OUT.log 2>&1; RC=$?
 git -C /repo worktree remove --force $WT
 echo "$P-$K exit=$RC: $(grep -c '^VIOLATION' $OUT.log) violation lines | $(tail -1 $OUT.log | cut -c1-160)"
 grep -A2 '^VIOLATION' $OUT.log | cut -c1-330 | head -${LINES_MAX:-9}
